@@ -553,6 +553,9 @@ def run(ctx: RuleContext, p: Program) -> None:
     # the base case of the induction over edit histories: the tree the parser builds is a tree of the tokens it inserts
     from . import treesem as _tsm
     ctx.try_rule(_tsm.rule_tree_sem, p, 'TREE-SEM')
+    # converting a cost between its two brace forms swaps the braces in place and hands back a model of exactly those tokens
+    from . import costsem as _cs
+    ctx.try_rule(_cs.rule_cost_sem, p, 'COST-SEM')
     ctx.not_decided += ['nesting / non-overlap of child spans (runtime)', 'single ownership of every significant token (runtime)',
                         'that every tree leaf is currently in the store (runtime)']
     ctx.assumptions += ['reattach(store) re-binds a whole subtree (COVER-REATTACH)', 'tokens need no reattach (their store is their handle)']
